@@ -193,7 +193,10 @@ VALID = {
     "Ace": ["10 permit tcp host 10.0.0.1 eq 179 10.0.0.0 0.0.0.3 eq 80 443 log", "permit ip any any",
             "deny udp 10.0.0.0/24 gt 1023 any range 10 20", "permit icmp object-group A addrgroup B",
             "permit host 1.1.1.1", "deny 10.0.0.0 0.0.0.255 log", "permit tcp any any established",
-            "permit tcp any range 80 80 any range www 80", "permit udp any eq 53 53 any neq 7 7", "permit 255 any any fragments"],
+            "permit tcp any range 80 80 any range www 80", "permit udp any eq 53 53 any neq 7 7", "permit 255 any any fragments",
+            "4294967295 permit tcp 100.100.100.100/32 range 496 2049 200.200.200.200/32 range 496 2049 ack log",
+            "4294967295 deny udp 100.100.100.0/25 eq 434 4500 138 137 200.200.200.0/25 eq 4500 434 log-input",
+            "1000000 permit tcp 10.100.100.0 0.0.0.255 eq 496 179 194 543 10.200.200.128/25 eq 544 515 517 log"],
     "Remark": ["remark text", "10 remark = H1, text"],
     "AceGroup": ["remark x\npermit ip any any\n deny tcp any any eq 80", "10 permit icmp any any\n20 deny ip any any"],
     "Acl": ["ip access-list extended A\n 10 remark x\n 20 permit ip any any\n 30 deny tcp any any eq 80 log",
